@@ -140,8 +140,13 @@ class _TS:
 def parse_const_tok(kind, text):
     if kind == "const":
         w, bits = text.split("'")
-        if int(w) != len(bits):
-            raise ParseError(f"constant {text!r}: width does not match digit count")
+        w = int(w)
+        # the RTLIL reader pads (with the last given digit, 0 for 1) or drops leading digits to reach the stated width
+        if len(bits) > w:
+            bits = bits[len(bits) - w:] if w else ""
+        elif len(bits) < w:
+            pad = bits[0] if bits and bits[0] in "xz-" else "0"
+            bits = pad * (w - len(bits)) + bits
         return Const(bits)
     if kind == "int":
         v = int(text)
